@@ -23,6 +23,8 @@ import (
 //     recorded to catch (MATRIX.json) and the reverses of the fix: commits
 //     (/verif/selftest/reverted) - must produce at least one violated obligation that the
 //     unchanged tree does not have;
+//     and the single-edit mutants of /verif/selftest/own_breaking.json (written with the rules in
+//     view: they test that each rule is sensitive to its clause, not that tests are evaded);
 //   benign variants - the behaviour-preserving edits of /verif/selftest/benign.json (renames,
 //     helper extraction, reordered independent statements, flipped comparisons, added logging,
 //     changed error texts, moved functions) and the behaviour-preserving refactorings written by
@@ -70,6 +72,19 @@ func selfTest(prop, repo, vdir string, out *core.Outcome) {
 		for sid, m := range expect {
 			if rules, ok := m[prop]; ok {
 				vars = append(vars, stVariant{id: "reverted/" + sid, kind: "breaking", patch: filepath.Join(vdir, "selftest", "reverted", sid+".diff"), expects: rules})
+			}
+		}
+	}
+	var own []struct {
+		ID       string   `json:"id"`
+		Property string   `json:"property"`
+		Expect   string   `json:"expect"`
+		Edits    []stEdit `json:"edits"`
+	}
+	if b, err := os.ReadFile(filepath.Join(vdir, "selftest", "own_breaking.json")); err == nil && json.Unmarshal(b, &own) == nil {
+		for _, ov := range own {
+			if ov.Property == prop {
+				vars = append(vars, stVariant{id: "own/" + ov.ID, kind: "breaking", edits: ov.Edits, expects: []string{ov.Expect}})
 			}
 		}
 	}
